@@ -72,6 +72,14 @@ breaking('B1-dropped-clamp', {'C12': 'B1'}, edit=[(M + 'utils.py', "            
 breaking('Q5-nz-short', {'C19': 'Q5'}, edit=[(M + 'qec/_internal.py', "for nz in range(min(num_qubit-nxy+1, tmp0)):", "for nz in range(min(num_qubit-nxy, tmp0)):")])
 breaking('E3-wrong-slot', {'C08': 'E3'}, edit=[(M + 'random/_spf2.py', "            F2[1] = 1-tmp0", "            F2[0] = 1-tmp0")])
 breaking('E2-unreduced-code', {'C08': 'E2'}, edit=[(M + 'gate/_pauli.py', "tmp0 = np.einsum(ret[:,:num_qubit], [0,1], ret[:,num_qubit:], [0,1], [0], optimize=True) % 4", "tmp0 = np.einsum(ret[:,:num_qubit], [0,1], ret[:,num_qubit:], [0,1], [0], optimize=True)")])
+breaking('F4-unstable-softplus', {'C01': 'F4'}, edit=[(M + 'manifold/_internal.py', "    tmp0 = np.sign(x)\n    ret = np.log1p(np.exp(-tmp0 * x)) + (1+tmp0)/2 * x", "    ret = x + np.log1p(np.exp(-x))")])
+preserving('Q5-commuted-bound', ['C19'], edit=[(M + 'qec/_internal.py', "for nz in range(min(num_qubit-nxy+1, tmp0)):", "for nz in range(min(1+num_qubit-nxy, tmp0)):")])
+preserving('F4-abs-form', ['C01'], edit=[(M + 'manifold/_internal.py', "    tmp0 = np.sign(x)\n    ret = np.log1p(np.exp(-tmp0 * x)) + (1+tmp0)/2 * x", "    ret = np.log1p(np.exp(-np.abs(x))) + np.maximum(x, 0)")])
+preserving('HM1-conj-first', ['C10'], edit=[(M + 'random/_internal.py', "ret = ginibre_ensemble @ ginibre_ensemble.T.conj()", "ret = ginibre_ensemble @ ginibre_ensemble.conj().T")])
+preserving('R1-control-renamed', ['C03', 'C04'], edit=[(M + 'sim/state.py', "    tmp0 = [x for x in range(num_qubit) if x not in ind_control_set]\n    index_map = {y:x for x,y in enumerate(tmp0)}\n    ind_target_new = [index_map[x] for x in ind_target]", "    kept = [q for q in range(num_qubit) if q not in ind_control_set]\n    position = {q:k for k,q in enumerate(kept)}\n    ind_target_new = [position[q] for q in ind_target]")])
+preserving('D5-explicit-tuple', ['C03'], edit=[(M + 'sim/circuit.py', "target_qubit = hf_tuple_of_int(index[1])", "target_qubit = tuple(int(x) for x in index[1])")])
+preserving('A6-named-columns', ['C04'], edit=[(M + '_torch_op.py', "tmp1[ind_zero[:,0],ind_zero[:,1],ind_zero[:,1]] = 0", "tmp1[ind_zero[:,0], ind_zero[:,1], ind_zero[:,1]] = 0.0")])
+preserving('SV1-isinf-swapped', ['C05'], edit=[(M + 'entangle/symext.py', "tmp0 = not np.isinf(prob.value)", "tmp0 = (not np.isinf(prob.value))")])
 breaking('refix-get_gme_2qubit', {'C13': 'F2', 'C05': 'F2'}, patch_reverse='fix_78cd862.diff')
 
 # ---- textual breaking edits, one per rule family
